@@ -56,9 +56,12 @@ def install_scandir(key):
 def install_memo_eviction(points):
     """Buggify: empty the include memo of a Platform before the look-ups whose global ordinal is in
     `points` (legal: a memo is an optimisation). points: list of ints or 'all'."""
-    from codebasin import platform as cbplat
+    try:
+        from codebasin import platform as cbplat
 
-    orig = cbplat.Platform.find_include_file
+        orig = cbplat.Platform.find_include_file
+    except (ImportError, AttributeError):
+        return  # the seam is gone after a refactoring: nothing to evict, nothing to report
     pts = points if points == "all" else set(points)
 
     def find_include_file(self, *a, **k):
@@ -76,9 +79,12 @@ def install_memo_eviction(points):
 
 def install_realpath_eviction(points):
     """Buggify: empty ParserState._path_cache before scheduler-chosen canonicalisations."""
-    from codebasin import finder
+    try:
+        from codebasin import finder
 
-    orig = getattr(finder.ParserState, "_get_realpath", None)
+        orig = getattr(finder.ParserState, "_get_realpath", None)
+    except (ImportError, AttributeError):
+        return
     if orig is None:
         return
     pts = points if points == "all" else set(points)
